@@ -129,24 +129,52 @@ Eval vm_compute in ("accesses outside the discipline without a justification", f
         if "case" in rp:
             cf = os.path.join(work, "replay-case.json")
             json.dump(rp["case"], open(cf, "w"))
-            rc, out = run_harness(hb, ["-mode", "replay", "-case", cf, "-reps", "200", "-out", os.path.join(work, "replay.json")], 300)
+            rc, out = run_harness(hb, ["-mode", "replay", "-case", cf, "-reps", "200", "-out", os.path.join(work, "replay.json"), "-casetimeout", "20"], 300)
             races = parse_races(out)
             rep = json.load(open(os.path.join(work, "replay.json"))) if rc != 124 and os.path.exists(os.path.join(work, "replay.json")) else {"n_fail": -1, "failures": []}
             ctx.cov["evaluations"] = 200
-            if rc == 124 or races or rep["n_fail"]:
-                ctx.violation("replayed case: hang=%s races=%d wrong results=%s" % (rc == 124, len(races), rep["n_fail"]),
+            if rc in (124, 5) or races or rep["n_fail"]:
+                ctx.violation("replayed case: hang=%s races=%d wrong results=%s" % (rc in (124, 5), len(races), rep["n_fail"]),
                               {"case": rp["case"], "races": races[:3], "failures": rep["failures"][:3]}, True)
         else:
             c.log("replay file holds no runnable case")
         return
 
-    # ---- T: concurrent reads on shared nodes that start raw, under the race detector
+    # ---- T: concurrent reads on shared nodes that start raw, under the race detector.  The harness has a per-case watchdog
+    #      (exit status 5 + the case in the report); the whole run has a deadline as well: a harness that is killed or
+    #      does not come back is a violation, replayable through the last case it announced.
     n = 700 if ctx.tier == "quick" else 12000
     rep_f = os.path.join(work, "run.json")
     cases_f = os.path.join(work, "cases.jsonl")
-    rc, out = run_harness(hb, ["-mode", "run", "-n", str(n), "-seed", str(ctx.seed), "-out", rep_f, "-cases", cases_f], 3000)
+    for f in (rep_f, cases_f):
+        if os.path.exists(f):
+            os.remove(f)
+    rc, out = run_harness(hb, ["-mode", "run", "-n", str(n), "-seed", str(ctx.seed), "-out", rep_f, "-cases", cases_f, "-casetimeout", "20"],
+                          300 if ctx.tier == "quick" else 2400)
     if rc not in (0, 66) or not os.path.exists(rep_f):
-        ctx.violation("concurrent-read harness crashed or hung (rc=%d): %s" % (rc, out[-1500:]), {"output": out[-6000:], "seed": ctx.seed}, True)
+        case = None
+        what = "crashed"
+        if rc == 5 and os.path.exists(rep_f):
+            h = json.load(open(rep_f)).get("hang")
+            if h:
+                case, what = h["case"], h["got"]
+        if case is None:
+            last = None
+            for last in re.finditer(r"CASE (\d+) BEGIN", out):
+                pass
+            if last is not None and os.path.exists(cases_f):
+                for l in open(cases_f):
+                    cj = json.loads(l)
+                    if cj["id"] == int(last.group(1)):
+                        case = cj
+            what = "did not finish before the deadline (killed)" if rc == 124 else "crashed (rc=%d)" % rc
+        lines = [l for l in out.splitlines() if not l.startswith("CASE ")]
+        fatal = [l for l in lines if l.startswith(("fatal error:", "panic:", "runtime:", "sync:"))][:3]
+        tail = "\n".join(lines[:40])[:2500] + "\n...\n" + "\n".join(lines)[-1500:]
+        if fatal:
+            what += ": " + " | ".join(fatal)
+        ctx.violation("concurrent-read harness: %s%s" % (what, "" if case is None else " - case %d (%s, %s)" % (case["id"], case["scenario"], case.get("shape", ""))),
+                      {"case": case, "output": tail, "seed": ctx.seed}, case is not None)
         return
     rep = json.load(open(rep_f))
     cases = {}
@@ -192,9 +220,9 @@ Eval vm_compute in ("accesses outside the discipline without a justification", f
     # ---- the recorded witnesses, replayed on the implementation
     dl_f = os.path.join(work, "deadlock-case.json")
     json.dump(DEADLOCK_CASE, open(dl_f, "w"))
-    rc2, out2 = run_harness(hb, ["-mode", "replay", "-case", dl_f, "-reps", "5", "-out", os.path.join(work, "deadlock.json")], 25)
+    rc2, out2 = run_harness(hb, ["-mode", "replay", "-case", dl_f, "-reps", "5", "-out", os.path.join(work, "deadlock.json"), "-casetimeout", "8"], 60)
     dl_races = parse_races(out2)
-    dl_hang = rc2 == 124
+    dl_hang = rc2 in (124, 5)
     dl_reproduced = dl_hang or any("parseRaw" in " ".join(r["a"] + r["b"]) for r in dl_races)
     if dl_reproduced:
         if KF_PARSE in known:
@@ -203,7 +231,7 @@ Eval vm_compute in ("accesses outside the discipline without a justification", f
             ctx.violation("ConcurrentRead node whose raw text fails to parse: readers hang / race (hang=%s, races=%d)" % (dl_hang, len(dl_races)),
                           {"case": DEADLOCK_CASE, "races": dl_races[:2]}, True)
     rc3, out3 = run_harness(hb, ["-mode", "run", "-n", "60", "-seed", str(ctx.seed), "-scenarios", "lazyload", "-out", os.path.join(work, "lazy.json"),
-                                 "-cases", os.path.join(work, "lazy-cases.jsonl")], 300)
+                                 "-cases", os.path.join(work, "lazy-cases.jsonl"), "-casetimeout", "10"], 120)
     lazy_races = parse_races(out3)
     lazy_rep = json.load(open(os.path.join(work, "lazy.json"))) if os.path.exists(os.path.join(work, "lazy.json")) and rc3 in (0, 66) else {"n_fail": -1, "failures": []}
     lazy_other = [r for r in lazy_races if classify_race(r) != KF_MARSHAL]
@@ -219,10 +247,11 @@ Eval vm_compute in ("accesses outside the discipline without a justification", f
     ctx.cov["evaluations"] = rep["ops"] + lazy_rep.get("ops", 0) + 5
     ctx.cov["distinct_nontrivial"] = rep["distinct_nontrivial"]
     ctx.cov["rule"] = ("one evaluation = one read operation executed by one goroutine on a shared node that started raw, concurrently with the other "
-                       "goroutines of its case (2-8 goroutines, 1-6 operations each), result compared with the same operation on a fresh node; "
+                       "goroutines of its case (1-8 goroutines, 1-9 operations each; shapes: mixed, sequential prefix on one goroutine, first lookups on "
+                       "objects with more than 16 members, big documents with text readers arriving during the raw->parsed conversion), result compared with the same operation on a fresh node; "
                        "distinct = distinct (document, scenario) with a document longer than 2 bytes")
     ctx.cov["distribution"] = {"per_operation": rep["per_kind"], "per_scenario": rep["per_scenario"], "goroutines_per_case": rep["goroutines"],
-                               "document_size": rep["doc_size"], "reference_outcome": rep["outcome"]}
+                               "document_size": rep["doc_size"], "reference_outcome": rep["outcome"], "case_shapes": rep.get("case_shapes", {})}
     ctx.cov["cases"] = rep["cases"]
     ctx.cov["race_reports"] = len(races)
     ctx.cov["race_reports_known"] = len(races) - len(bad_races)
